@@ -350,7 +350,7 @@ func step(ms int64) time.Duration {
 
 var names = []string{"http://s0", "http://s1", "http://s2", "http://s3", "http://s4"}
 var confWeights = []int{1, 1, 2, 2, 3, 4, 5, 6, 7, 8, 10, 12, 100, 1000, 4096, 5000}
-var ratingVals = []float64{0, 0.01, 0.1, 0.3, 0.5, 0.9, 1}
+var ratingVals = []float64{0, 0.01, 0.1, 0.3, 0.5, 0.9, 1, 1.0 / 3, 1.0 / 7, 2.0 / 3, 0.123456789, 1e-7}
 
 func newWorld(t *rapid.T, scripted bool) *world {
 	w := &world{t: t, lastChg: -1}
@@ -427,9 +427,9 @@ func TestC10_ScriptedRatings(t *testing.T) {
 				for j, s := range w.servers {
 					s.m.ready = true
 					if j < nb {
-						s.m.rating = rapid.SampledFrom([]float64{0.5, 0.9, 1}).Draw(t, "badRating")
+						s.m.rating = rapid.SampledFrom([]float64{0.5, 0.9, 1, 2.0 / 3, 0.987654321}).Draw(t, "badRating")
 					} else {
-						s.m.rating = rapid.SampledFrom([]float64{0, 0.01, 0.1}).Draw(t, "goodRating")
+						s.m.rating = rapid.SampledFrom([]float64{0, 0.01, 0.1, 1.0 / 7, 1.0 / 30, 0.0123456789}).Draw(t, "goodRating")
 					}
 				}
 				ratings := make([]float64, k)
